@@ -53,9 +53,11 @@ impl Database {
                     // a matcher of its own for every entry: a matcher that is reused keeps state
                     // between calls and scores the same pair differently depending on what it
                     // matched before, which made the order of results differ from run to run
+                    // (an entry that does not match comes after every entry that does: a
+                    // real match scores zero or less once its characters lie far apart)
                     SkimMatcherV2::default()
                         .fuzzy_match(&path.search_text, query)
-                        .unwrap_or(0),
+                        .unwrap_or(i64::MIN),
                 )
             })
             .collect::<Vec<_>>()
